@@ -24,7 +24,9 @@ FAMS = ["single:conv@8", "single:dw@8", "single:maxpool@8", "single:avgpool@8", 
         "single:add@8", "single:sub@8", "single:mul@8", "single:add_bcast@8", "single:mul_scalar@8", "single:concat@u8", "diamond", "siamese", "single:logistic@8", "single:tanh@8", "single:lrelu@8", "single:hswish@8",
         "single:transpose@8", "single:reshape@8", "single:pad@8", "single:slice@8", "single:concat@8", "conv_chain",
         "single:conv", "single:dw", "single:fc", "single:maxpool", "single:avgpool", "single:pad_bc@8",
-        "single:quantize", "single:resize_nearest@8", "single:resize_bilinear@8", "single:tconv@8", "upscale_chain", "conv_chain_big", "weights_heavy", "single:mean@8", "single:transpose_c@8", "pow2_rescale", "single:transpose_c@8", "pow2_rescale", "single:prelu@8", "single:prelu@8", "mixed_exact", "mixed_exact", "mixed_exact"]
+        "single:quantize", "single:resize_nearest@8", "single:resize_bilinear@8", "single:tconv@8", "upscale_chain", "conv_chain_big", "weights_heavy", "single:mean@8", "single:transpose_c@8", "pow2_rescale", "single:transpose_c@8", "pow2_rescale", "single:prelu@8", "single:prelu@8", "mixed_exact", "mixed_exact", "mixed_exact",
+        "single:conv_dil@8", "single:dw_dil@8", "single:avgpool_s4@8", "single:split@8", "single:mul_max@8", "single:relu_chain@8",
+        "single:relu@8", "single:abs@8", "single:minimum@8", "single:maximum@8", "single:conv_head"]
 if os.environ.get("VERIF_C01_FAMS"):        # development aid: restrict the generated part to some families
     FAMS = os.environ["VERIF_C01_FAMS"].split(",")
 
@@ -304,7 +306,7 @@ def run(tier):
     res = vlib.Result("C01", tier, "other")
     b = vlib.build_property("C01")
     okx, xlog = vlib.build_extraction("npuExec")
-    n = 170 if tier == "quick" else 1400
+    n = 200 if tier == "quick" else 1600
     max_macs = 1200000 if tier == "quick" else 30000000
     rng = random.Random("c01/%d" % vlib.seed())
     jobs = compiles.corpus_jobs(capture=False) + compiles.plan(FAMS, n, vlib.seed(), tag="c01", capture=False)
